@@ -32,7 +32,9 @@ func (eng) Rule() string {
 		"StoreTransitions, QueueBatch 1..100). An independent tracer on the same machine records every transition; " +
 		"the reference log is the documented matching rule applied to it. kinds: mem (in-memory backend, exact), " +
 		"back/<backend> (bbolt, badger, sqlite against the same reference, after Sync and a settled record count), " +
-		"resume (stop and reopen a persistent history), eximport (Machine.Export / Import). An evaluation is one " +
+		"resume (stop and reopen a persistent history), crash (a child process tracking into a persistent store is killed " +
+		"with SIGKILL at a PRNG-chosen paced Sync report, the store is reopened and compared with the reference), " +
+		"eximport (Machine.Export / Import). An evaluation is one " +
 		"record or one query answer judged; a distinct item is a distinct (config class, query class, backend)."
 }
 func (eng) Assumptions() []string {
@@ -96,6 +98,15 @@ func (eng) Cases(seed uint64, tier string) []core.CaseDesc {
 	}
 	for i := 0; i < n; i++ {
 		cs = append(cs, mk(fmt.Sprintf("eximport/%03d", i), "eximport", seed*1000003+uint64(i)*17, nil))
+	}
+	nk := 3
+	if tier == "thorough" {
+		nk = 40
+	}
+	for _, b := range backends {
+		for i := 0; i < nk; i++ {
+			cs = append(cs, mk(fmt.Sprintf("crash/%s/%03d", b, i), "crash", seed*1000003+uint64(i)*733, caseP{Backend: b, Class: "plain"}))
+		}
 	}
 	return cs
 }
@@ -290,7 +301,13 @@ func reference(w *world, cfg amhist.BaseConfig, tracked am.S) []cand {
 	return out
 }
 
-func main() { core.Main(eng{}) }
+func main() {
+	if len(os.Args) > 1 && os.Args[1] == "-crashchild" {
+		crashChildMain(os.Args[2:])
+		return
+	}
+	core.Main(eng{})
+}
 
 func (e eng) Run(c core.CaseDesc, tier string) *core.CaseResult {
 	res := &core.CaseResult{Case: c}
@@ -307,6 +324,8 @@ func (e eng) Run(c core.CaseDesc, tier string) *core.CaseResult {
 		runResume(res, c, p)
 	case "eximport":
 		runExImport(res, c)
+	case "crash":
+		runCrash(res, c, p)
 	}
 	return res
 }
